@@ -51,4 +51,10 @@ Inductive tok :=
 (* Port(n): the FIRST argument *)
 | TPort (v : Z)
 (* TempoChange(a [,b [,len]]): the first argument and the others (read_args_tokens yields at least one) *)
-| TTempoChange (a : Z) (rest : list Z).
+| TTempoChange (a : Z) (rest : list Z)
+(* system exclusive messages *)
+| TSysEx (checksum : Z) (args : list Z)            (* SysEx: value_i = 1 when a {..} checksum group was read; -1 / -2 mark the group *)
+| TSysexReset (kind : Z)                           (* ResetGM (0) / ResetGS (1) / ResetXG (2) *)
+| TSysExCommand (tag : Z) (args : list Z)          (* MasterVolume (1) / MasterBalance (2) *)
+| TGSEffect (tag a : Z) (rest : list Z)            (* GSEffect / GSReverb... / GSChorus... / GS_RHYTHM / GSScaleTuning: first argument, the others *)
+| TDeviceNumber (args : list Z).
